@@ -368,7 +368,15 @@ impl<T: Qcow2IoOps> Qcow2Dev<T> {
                 self.mark_new_cluster(l2_offset >> info.cluster_bits())
                     .await;
 
-                let _ = l2_table.map_cluster(split.l2_slice_index(info), l2_offset);
+                // A zero-flagged entry may carry a preallocated cluster which
+                // is replaced now. (The clusters of a compressed entry are
+                // released by the COW path once the copy is done.)
+                let was_compressed = l2_table.get_entry(info, split).is_compressed();
+                if let Some((old, cnt)) = l2_table.map_cluster(split.l2_slice_index(info), l2_offset) {
+                    if !was_compressed {
+                        self.free_clusters(old, cnt).await?;
+                    }
+                }
                 Ok(l2_table.get_mapping(info, split))
             }
             None => Err("DataFile mapping: None offset None".into()),
@@ -484,7 +492,11 @@ impl<T: Qcow2IoOps> Qcow2Dev<T> {
 
                     // this is one new cluster
                     self.mark_new_cluster(l2_off >> info.cluster_bits()).await;
-                    let _ = l2_table.map_cluster(split.l2_slice_index(info), l2_off);
+                    // a zero-flagged entry may carry a preallocated cluster
+                    // which is replaced now
+                    if let Some((old, cnt)) = l2_table.map_cluster(split.l2_slice_index(info), l2_off) {
+                        self.free_clusters(old, cnt).await?;
+                    }
 
                     //load new entry
                     let entry = l2_table.get_entry(info, &split);
